@@ -94,7 +94,7 @@ theorem listStep_add (recur : Recur) (cfg : Cfg) (subpath : String) (A B : List 
     (hok : ItemOK P recur cfg (cfg.differ subpath) subpath A B)
     (di : List Op) (i j kb x y : Nat) (vs : List J)
     (hp : Pending A B i j x y) (hxA : x ≤ A.length) (hyB : y + vs.length ≤ B.length)
-    (hvs : vs = slice' B y (y + vs.length))
+    (hvs : vs = slice' B y (y + vs.length)) (hvne : vs.isEmpty = false)
     (h : BuiltM P A B di i j kb) (hkb : kb ≤ i) (hkx : kb < x ∨ di = [])
     (st : List Op × Nat × Nat)
     (hr : listStep recur cfg subpath A B (di, i, j) (.addrange x vs) = .ok st) :
@@ -111,14 +111,14 @@ theorem listStep_add (recur : Recur) (cfg : Cfg) (subpath : String) (A B : List 
     have e2 : j + (x - i) = y := by omega
     rw [e1, e2] at hb
     refine ⟨by simp; omega, by simp; omega, ?_⟩
-    obtain ⟨p, d1, d2, d3⟩ := hb
+    obtain ⟨p, d1, d2, d3, d4⟩ := hb
     have hlt : ∀ o ∈ di1, o.idx < x := by
       by_cases hn : x - i = 0
       · have := hz hn
         subst this
         intro o ho
         rcases hkx with hkx | hkx
-        · obtain ⟨_, _, _, g3⟩ := h
+        · obtain ⟨_, _, _, g3, _⟩ := h
           have := g3 o ho; omega
         · subst hkx; simp at ho
       · intro o ho
@@ -126,7 +126,7 @@ theorem listStep_add (recur : Recur) (cfg : Cfg) (subpath : String) (A B : List 
         omega
     show BuiltM P A B (seqAppend di1 (.addrange x vs)) x (y + vs.length) x
     rw [seqAppend_end di1 (.addrange x vs) (by simpa [Op.idx] using hlt)]
-    refine ⟨p ++ [.add x vs], d1.append (.add x vs .nil), ?_, ?_⟩
+    refine ⟨p ++ [.add x vs], d1.append (.add x vs .nil), ?_, ?_, ?_⟩
     · have := BuiltC.push A B p x y (.add x vs) d2 rfl (by simpa [POp.out] using hvs) (by simpa [POp.out] using hyB)
         (by simp [POp.eat]; omega)
       simpa [POp.eat, POp.out] using this
@@ -135,12 +135,13 @@ theorem listStep_add (recur : Recur) (cfg : Cfg) (subpath : String) (A B : List 
       rcases ho with ho | rfl
       · exact Nat.le_of_lt (hlt o ho)
       · simp [Op.idx]
+    · exact d4.snoc (by simpa [okEntry] using hvne) (fun o ho => Or.inl (by simpa [Op.idx] using hlt o ho))
 
 /-- one `removerange` of the shallow diff in `listStep` -/
 theorem listStep_rem (recur : Recur) (cfg : Cfg) (subpath : String) (A B : List J)
     (hok : ItemOK P recur cfg (cfg.differ subpath) subpath A B)
     (di : List Op) (i j kb x y m : Nat)
-    (hp : Pending A B i j x y) (hxA : x + m ≤ A.length) (hyB : y ≤ B.length)
+    (hp : Pending A B i j x y) (hxA : x + m ≤ A.length) (hyB : y ≤ B.length) (hm : 1 ≤ m)
     (h : BuiltM P A B di i j kb) (hkb : kb ≤ i)
     (st : List Op × Nat × Nat)
     (hr : listStep recur cfg subpath A B (di, i, j) (.removerange x m) = .ok st) :
@@ -157,13 +158,13 @@ theorem listStep_rem (recur : Recur) (cfg : Cfg) (subpath : String) (A B : List 
     have e2 : j + (x - i) = y := by omega
     rw [e1, e2] at hb
     refine ⟨by simp; omega, by simp; omega, ?_⟩
-    obtain ⟨p, d1, d2, d3⟩ := hb
+    obtain ⟨p, d1, d2, d3, d4⟩ := hb
     show BuiltM P A B (seqAppend di1 (.removerange x m)) (x + m) y x
     rw [seqAppend_end_nonadd di1 (.removerange x m) rfl (fun o ho => by
       have := d3 o ho
       show o.idx ≤ x
       omega)]
-    refine ⟨p ++ [.rem x m], d1.append (.rem x m .nil), ?_, ?_⟩
+    refine ⟨p ++ [.rem x m], d1.append (.rem x m .nil), ?_, ?_, ?_⟩
     · have := BuiltC.push A B p x y (.rem x m) d2 rfl (by simp [POp.out, slice'_self]) (by simp [POp.out]; omega)
         (by simpa [POp.eat] using hxA)
       simpa [POp.eat, POp.out] using this
@@ -172,6 +173,17 @@ theorem listStep_rem (recur : Recur) (cfg : Cfg) (subpath : String) (A B : List 
       rcases ho with ho | rfl
       · have := d3 o ho; omega
       · simp [Op.idx]
+    · have hcur : ∀ q ∈ p, q.key + q.eat ≤ x := fun q hq =>
+        Nat.le_trans (run_entry_le p 0 A q hq) d2.1.1
+      have hna := denotes_nonadd_lt d1 d4.1 hcur
+      refine d4.snoc (by simp [okEntry]; omega) (fun o ho => ?_)
+      cases hadd : o.isAdd with
+      | false => exact Or.inl (by simpa [Op.idx] using hna o ho hadd)
+      | true =>
+        have hle : o.idx ≤ x := by have := d3 o ho; omega
+        by_cases hlt : o.idx < x
+        · exact Or.inl (by simpa [Op.idx] using hlt)
+        · exact Or.inr ⟨by show o.idx = x; omega, hadd, rfl⟩
 
 theorem Pending.refl (A B : List J) (x y : Nat) : Pending A B x y x y :=
   ⟨Nat.le_refl _, Nat.le_refl _, by omega, fun t ht => absurd ht (by omega)⟩
@@ -201,7 +213,10 @@ theorem gapFold (recur : Recur) (cfg : Cfg) (subpath : String) (A B : List J)
     | ok s1 =>
       simp only [ha] at hr
       obtain ⟨a1, a2, a3⟩ := listStep_add recur cfg subpath A B hok di i j kb x y _ hp (by omega)
-        (by rw [hlen]; omega) hvs h hkb hkx s1 ha
+        (by rw [hlen]; omega) hvs (by
+          cases hq : (B.drop y).take (y' - y) with
+          | nil => rw [hq] at hlen; simp at hlen; omega
+          | cons _ _ => rfl) h hkb hkx s1 ha
       obtain ⟨d1, i1, j1⟩ := s1
       simp only at a1 a2 a3
       subst a1; subst a2
@@ -213,7 +228,7 @@ theorem gapFold (recur : Recur) (cfg : Cfg) (subpath : String) (A B : List J)
       | ok s2 =>
         simp only [hb] at hr
         obtain ⟨b1, b2, b3⟩ := listStep_rem recur cfg subpath A B hok d1 i1 y' i1 i1 y' (x' - i1)
-          (Pending.refl A B i1 y') (by omega) hyB a3 (Nat.le_refl _) s2 hb
+          (Pending.refl A B i1 y') (by omega) hyB (by omega) a3 (Nat.le_refl _) s2 hb
         obtain ⟨d2, i2, j2⟩ := s2
         simp only at b1 b2 b3
         subst b1; subst b2
@@ -229,7 +244,10 @@ theorem gapFold (recur : Recur) (cfg : Cfg) (subpath : String) (A B : List J)
     | ok s1 =>
       simp only [ha] at hr
       obtain ⟨a1, a2, a3⟩ := listStep_add recur cfg subpath A B hok di i j kb x' y _ hp (by omega)
-        (by rw [hlen]; omega) hvs h hkb hkx s1 ha
+        (by rw [hlen]; omega) hvs (by
+          cases hq : (B.drop y).take (y' - y) with
+          | nil => rw [hq] at hlen; simp at hlen; omega
+          | cons _ _ => rfl) h hkb hkx s1 ha
       obtain ⟨d1, i1, j1⟩ := s1
       simp only at a1 a2 a3
       subst a1; subst a2
@@ -246,7 +264,7 @@ theorem gapFold (recur : Recur) (cfg : Cfg) (subpath : String) (A B : List J)
     | ok s2 =>
       simp only [hb] at hr
       obtain ⟨b1, b2, b3⟩ := listStep_rem recur cfg subpath A B hok di i j kb x y' (x' - x)
-        hp (by omega) hyB h hkb s2 hb
+        hp (by omega) hyB (by omega) h hkb s2 hb
       obtain ⟨d2, i2, j2⟩ := s2
       simp only at b1 b2 b3
       subst b1; subst b2
